@@ -1,6 +1,7 @@
 package props
 
 import (
+	"encoding/json"
 	"fmt"
 	"regexp"
 	"strings"
@@ -457,11 +458,219 @@ func c14CtorSelSub() *engine.Sub {
 	}
 }
 
+// ---- long selectors, and parse results kept while later parses happen ----
+
+type c14LongCase struct {
+	Unit string `json:"unit"` // the segment text that is repeated
+	N    int    `json:"n"`
+}
+
+func (c *c14LongCase) Weight() int { return c.N }
+
+func c14LongSub() *engine.Sub {
+	return &engine.Sub{
+		Name:   "long-selectors",
+		Repeat: true,
+		Rule:   "selectors made of n segments (units .f, .a?, [0], [\"k\"], [1:] and a mix) for n on both sides of 16, 24, 256, 1024, 1026 and 4096, through selector.Parse and inside a policy read with policy.FromDagJson: rejected, or parsed into exactly n segments that print back as written (and the policy writes the selector back in full); non-trivial = accepted",
+		Bound:  func(string) string { return "6 units x 16 lengths (2..4097) x {Parse, policy.FromDagJson}" },
+		Gen: func(tier string, emit func(any) bool) {
+			for _, u := range []string{".f", ".a?", "[0]", `["k"]`, "[1:]", "mix"} {
+				for _, n := range []int{2, 15, 16, 17, 23, 24, 25, 255, 256, 257, 1023, 1024, 1025, 1026, 4096, 4097} {
+					if !emit(&c14LongCase{Unit: u, N: n}) {
+						return
+					}
+				}
+			}
+		},
+		NewCase: func() any { return &c14LongCase{} },
+		Run: func(ctx *engine.Ctx, c any) {
+			cs := c.(*c14LongCase)
+			var sb strings.Builder
+			units := []string{cs.Unit}
+			if cs.Unit == "mix" {
+				units = []string{".f", "[0]?", `["k"]`, ".g?", "[1:3]"}
+			}
+			for i := 0; i < cs.N; i++ {
+				u := units[i%len(units)]
+				if i == 0 && strings.HasPrefix(u, "[") {
+					sb.WriteString(".")
+				}
+				sb.WriteString(u)
+			}
+			text := sb.String()
+			ctx.States(1)
+			ctx.Eval(2)
+			ctx.Trans(1)
+			sel, err := selector.Parse(text)
+			if err != nil {
+				ctx.Outcome("rejected")
+			} else {
+				ctx.Nontrivial(1)
+				ctx.Outcome("accepted")
+				segs := 0
+				for _, sg := range sel {
+					if !sg.Identity() {
+						segs++
+					}
+				}
+				if segs != cs.N || c14Normalise(sel.String()) != c14Normalise(text) {
+					ctx.Failf(cs, "selector/part-dropped/long", "a selector of %d segments (%s...) parses into %d segments printing as %d bytes instead of %d", cs.N, text[:min(len(text), 20)], segs, len(sel.String()), len(text))
+				}
+			}
+			js, _ := json.Marshal(text)
+			pol, perr := policy.FromDagJson(`[["==", ` + string(js) + `, 1]]`)
+			if (perr == nil) != (err == nil) {
+				ctx.Failf(cs, "policy/selector-acceptance-differs", "selector of %d segments: Parse err=%v but policy.FromDagJson err=%v", cs.N, err, perr)
+			} else if perr == nil {
+				back, err := pol.ToIPLD()
+				if err != nil {
+					ctx.Failf(cs, "policy/toipld-fails", "policy with a %d-segment selector cannot be written back: %v", cs.N, err)
+					return
+				}
+				st, _ := back.LookupByIndex(0)
+				sn, _ := st.LookupByIndex(1)
+				got, _ := sn.AsString()
+				if c14Normalise(got) != c14Normalise(text) {
+					ctx.Failf(cs, "policy/roundtrip-differs/long-selector", "policy with a %d-segment selector writes back a selector of %d bytes instead of %d", cs.N, len(got), len(text))
+				}
+			}
+		},
+	}
+}
+
+type c14KeptCase struct {
+	Order []int `json:"order"` // indexes into c14KeptTexts, parsed in this order, all results kept
+}
+
+func c14KeptTexts() []string {
+	mk := func(n int, u string) string { return strings.Repeat(u, n) }
+	return []string{".a", mk(5, ".b"), mk(16, ".c"), mk(17, ".d"), mk(33, ".e"), mk(65, ".f?"), mk(130, ".g") + "[0]", `.["x"]` + mk(20, "[1:]")}
+}
+
+func c14KeptSub() *engine.Sub {
+	texts := c14KeptTexts()
+	return &engine.Sub{
+		Name:   "parse-results-kept",
+		Serial: true,
+		Rule:   "first a ladder (17, 33, 65, ... 2049 segments, each followed by a short selector: the first sub-check of the process, so that any scratch space grows here), then selectors of 1, 5, 16, 17, 33, 65, 131 and 21 segments parsed one after the other in every order of 4 out of 8 (and policies with two such selectors are read); ALL parsed values are kept and, after the last parse, each must still print as its own text and have its own number of segments: a parsed selector is a value, not a view of a buffer that later parses reuse; non-trivial = all",
+		Bound: func(string) string {
+			return "1680 ordered selections of 4 out of 8 selector texts; 56 policies with two statements"
+		},
+		Gen: func(tier string, emit func(any) bool) {
+			// first of all a ladder: ever longer selectors, each followed by a short one (Order = nil)
+			if !emit(&c14KeptCase{}) {
+				return
+			}
+			n := len(texts)
+			for a := 0; a < n; a++ {
+				for b := 0; b < n; b++ {
+					for c := 0; c < n; c++ {
+						for d := 0; d < n; d++ {
+							if a == b || a == c || a == d || b == c || b == d || c == d {
+								continue
+							}
+							if !emit(&c14KeptCase{Order: []int{a, b, c, d}}) {
+								return
+							}
+						}
+					}
+				}
+			}
+			for a := 0; a < n; a++ {
+				for b := 0; b < n; b++ {
+					if a != b && !emit(&c14KeptCase{Order: []int{a, b}}) {
+						return
+					}
+				}
+			}
+		},
+		NewCase: func() any { return &c14KeptCase{} },
+		Run: func(ctx *engine.Ctx, c any) {
+			cs := c.(*c14KeptCase)
+			ctx.States(1)
+			ctx.Nontrivial(1)
+			if len(cs.Order) == 2 {
+				// a policy whose two statements carry the two selectors
+				j0, _ := json.Marshal(texts[cs.Order[0]])
+				j1, _ := json.Marshal(texts[cs.Order[1]])
+				src := `[["==", ` + string(j0) + `, 1], ["like", ` + string(j1) + `, "a*"]]`
+				pol, err := policy.FromDagJson(src)
+				ctx.Eval(1)
+				if err != nil {
+					ctx.Failf(cs, "policy/rejects-wellformed", "policy.FromDagJson(%.60s...) fails: %v", src, err)
+					return
+				}
+				back, err := pol.ToIPLD()
+				if err != nil {
+					ctx.Failf(cs, "policy/toipld-fails", "%v", err)
+					return
+				}
+				for k := 0; k < 2; k++ {
+					st, _ := back.LookupByIndex(int64(k))
+					sn, _ := st.LookupByIndex(1)
+					got, _ := sn.AsString()
+					if c14Normalise(got) != c14Normalise(texts[cs.Order[k]]) {
+						ctx.Outcome("kept-differs")
+						ctx.Failf(cs, "policy/roundtrip-differs/kept-selector", "statement %d of a two-statement policy is written back with selector %.40s... instead of %.40s...", k, got, texts[cs.Order[k]])
+						return
+					}
+				}
+				ctx.Outcome("kept-ok")
+				return
+			}
+			if cs.Order == nil {
+				var ladder []string
+				for k, n := 0, 17; n <= 2100; k, n = k+1, n*2-1 {
+					ladder = append(ladder, strings.Repeat(".q", n), strings.Repeat(".s", k%5+1))
+				}
+				var ks []selector.Selector
+				for _, t := range ladder {
+					sel, err := selector.Parse(t)
+					ctx.Eval(1)
+					if err != nil {
+						ctx.Failf(cs, "selector/rejects-wellformed", "Parse of a %d-byte selector fails: %v", len(t), err)
+						return
+					}
+					ks = append(ks, sel)
+				}
+				for k, t := range ladder {
+					if ks[k].String() != t {
+						ctx.Outcome("kept-differs")
+						ctx.Failf(cs, "selector/kept-result-changed", "ladder step %d: a selector of %d segments prints as %.30s... after the later parses (longer selectors, each followed by a short one)", k, len(t)/2, ks[k].String())
+						return
+					}
+				}
+				ctx.Outcome("kept-ok")
+				return
+			}
+			var kept []selector.Selector
+			for _, i := range cs.Order {
+				sel, err := selector.Parse(texts[i])
+				ctx.Eval(1)
+				ctx.Trans(1)
+				if err != nil {
+					ctx.Failf(cs, "selector/rejects-wellformed", "Parse(%.40s...) fails: %v", texts[i], err)
+					return
+				}
+				kept = append(kept, sel)
+			}
+			for k, i := range cs.Order {
+				if c14Normalise(kept[k].String()) != c14Normalise(texts[i]) {
+					ctx.Outcome("kept-differs")
+					ctx.Failf(cs, "selector/kept-result-changed", "the selector parsed at step %d (%.30s..., %d bytes) prints as %.30s... (%d bytes) after the later parses of the sequence %v", k, texts[i], len(texts[i]), kept[k].String(), len(kept[k].String()), cs.Order)
+					return
+				}
+			}
+			ctx.Outcome("kept-ok")
+		},
+	}
+}
+
 func C14() *engine.Check {
 	return &engine.Check{
 		Property: "C14",
 		Level:    "model_checking",
-		Subs:     []*engine.Sub{c14SelectorSub(), c14PolicySub(), c14ConstructedSub(), c14CtorSelSub()},
+		Subs:     []*engine.Sub{c14KeptSub(), c14SelectorSub(), c14LongSub(), c14PolicySub(), c14ConstructedSub(), c14CtorSelSub()},
 		Assumptions: []string{
 			"rejected selector texts carry no obligation; accepted normalisations of the printed form: '?' after an identity dot dropped, leading zeros of bracketed integers dropped; anything else counts as a dropped or altered part",
 			"policy nodes are generated from a grammar of statement shapes (operator x arity x argument kind), not from arbitrary IPLD",
